@@ -53,6 +53,40 @@ func coreFamilies() []family {
 }
 
 func c01Scenarios(tier string) []*hist.Scenario {
+	return append(c01FirstPublication(), c01ScenariosBase(tier)...)
+}
+
+func c01FirstPublication() []*hist.Scenario {
+	var out []*hist.Scenario
+	big := hist.Config{Threshold: hist.Big, Interval: hist.Big}
+	// the FIRST change a client ever publishes (no replica has an entry for its
+	// actor in any version vector yet), concurrent with a removal that covers
+	// its position by a client whose clock is ahead (a third client's edit was
+	// pulled first): client 0 removes, client 1 makes any edit, client 2
+	// inserts inside; one edit each, every placement of three syncs
+	{
+		for _, tr := range []struct {
+			fam     string
+			init    []string
+			rm, ins []string
+			bump    string
+		}{
+			{"txt", []string{"init.t"}, []string{"t.repM", "t.delAll"}, []string{"t.insM", "t.insAttrM"}, "t.ins0"},
+			{"tree", []string{"init.tr"}, []string{"tr.delP0", "tr.delT0"}, []string{"tr.insT1"}, "tr.insTE"},
+			{"arr", []string{"init.a"}, []string{"a.delM", "a.delroot"}, []string{"a.ins1", "a.setL"}, "a.push"},
+			{"obj", []string{"init.o"}, []string{"o.delroot", "o.del1"}, []string{"o.setin1", "o.setobj1"}, "o.set2"},
+		} {
+			out = append(out, &hist.Scenario{
+				Name: fmt.Sprintf("c01/%s/first-publication/%s|%s/N3K3Y3", tr.fam, strings.Join(tr.rm, "+"), strings.Join(tr.ins, "+")),
+				N:    3, Init: tr.init, Alphabet: append(append([]string{tr.bump}, tr.rm...), tr.ins...),
+				PerClient: [][]string{tr.rm, {tr.bump}, tr.ins}, K: 3, Y: 3, MaxPerClient: 1, Cfg: big,
+			})
+		}
+	}
+	return out
+}
+
+func c01ScenariosBase(tier string) []*hist.Scenario {
 	var out []*hist.Scenario
 	big := hist.Config{Threshold: hist.Big, Interval: hist.Big}
 	add := func(fam, tag string, init, al []string, n, k, y, maxPer int) {
